@@ -228,11 +228,69 @@ func opCliGenPrimary(a []Sx) Sx {
 
 // cli_sign_refuse kind: inputs for which sign-bundle signatures-section must refuse rather than
 // emit a bundle that does not verify.  kind: keymismatch | rs0 | rsneg | rs16385 | emptydigest
+// kind seconddigest: a bundle with exchanges of two hosts (from a HAR capture), signed by the first host's
+// signer, then by the second host's signer although that host's exchange already carries an origin-supplied
+// Digest header: the second run must refuse, not emit a bundle in which the covered exchange is unsigned
+func cliSecondDigest(d string, env []string) Sx {
+	type nvp struct {
+		Name  string `json:"name"`
+		Value string `json:"value"`
+	}
+	ent := func(u string, hs []nvp) interface{} {
+		return map[string]interface{}{
+			"request":  map[string]interface{}{"method": "GET", "url": u, "headers": []nvp{{"Accept", "*/*"}}},
+			"response": map[string]interface{}{"status": 200, "headers": hs, "content": map[string]interface{}{"text": "body of " + u, "mimeType": "text/plain", "size": 8 + len(u)}},
+		}
+	}
+	js, _ := json.Marshal(map[string]interface{}{"log": map[string]interface{}{"version": "1.2", "entries": []interface{}{
+		ent("https://example.com/a", []nvp{{"Content-Type", "text/plain"}}),
+		ent("https://a.test/b", []nvp{{"Content-Type", "text/plain"}, {"Digest", "sha-256=X48E9qOokqqrvdts8nOJRJN3OWDUoyWxBf7kbu9DBPE="}}),
+	}}})
+	har := filepath.Join(d, "in.har")
+	os.WriteFile(har, js, 0600)
+	wbn := filepath.Join(d, "in.wbn")
+	if se, err := runTool(env, nil, "gen-bundle", "-version", "b2", "-har", har, "-o", wbn); err != nil {
+		return fail("gen-bundle -har", se)
+	}
+	certs := []string{}
+	keys := []string{}
+	for i, host := range []string{"example.com", "a.test"} {
+		kd := filepath.Join(d, fmt.Sprintf("k%d", i))
+		os.MkdirAll(kd, 0755)
+		forms, _ := writeKeyForms(kd, elliptic.P256(), host)
+		var cc bytes.Buffer
+		if se, err := runTool(env, &cc, "gen-certurl", "-pem", filepath.Join(kd, "cert.pem"), "-ocsp", filepath.Join(kd, "ocsp.der")); err != nil {
+			return fail("gen-certurl", se)
+		}
+		c := filepath.Join(kd, "cert.cbor")
+		os.WriteFile(c, cc.Bytes(), 0600)
+		certs, keys = append(certs, c), append(keys, forms["sec1"])
+	}
+	s1, s2 := filepath.Join(d, "s1.wbn"), filepath.Join(d, "s2.wbn")
+	if se, err := runTool(env, nil, "sign-bundle", "signatures-section", "-i", wbn, "-o", s1, "-certificate", certs[0], "-privateKey", keys[0]); err != nil {
+		return fail("first signer refused", se)
+	}
+	if _, err := runTool(env, nil, "sign-bundle", "signatures-section", "-i", s1, "-o", s2, "-certificate", certs[1], "-privateKey", keys[1]); err != nil {
+		return L(Sym("refused"))
+	}
+	var do bytes.Buffer
+	if se, err := runTool(env, &do, "dump-bundle", "-i", s2, "-contentText=false"); err != nil {
+		return fail("sign-bundle emitted a bundle dump-bundle rejects", se)
+	}
+	if strings.Contains(do.String(), "[Not signed]") || strings.Contains(do.String(), "verification error") {
+		return fail("second signer left its own exchange unsigned", "")
+	}
+	return L(Sym("signed_and_verifies"))
+}
+
 func opCliSignRefuse(a []Sx) Sx {
 	d, clean := tmpDir()
 	defer clean()
 	env := []string{"WEB_BUNDLE_SIGNING_PASSPHRASE= secret passphrase\t"}
 	kind := string(a[0].B)
+	if kind == "seconddigest" {
+		return cliSecondDigest(d, env)
+	}
 	root := filepath.Join(d, "root")
 	os.MkdirAll(root, 0755)
 	os.WriteFile(filepath.Join(root, "index.html"), []byte("<html>hi</html>"), 0644)
@@ -568,7 +626,7 @@ func genC20(r *Rng, tier string) []Case {
 		cs = append(cs, Case{"cli_chain", []Sx{Sym("signbundle"), Sym("b2"), L(simple...), Sym("pkcs8"), Zi(16), Zi(0), Zi(3)}})
 	}
 	// inputs sign-bundle must refuse rather than emit a bundle that does not verify
-	for i, k := range []string{"keymismatch", "keymismatch", "rs0", "rsneg", "rs16385", "emptydigest"} {
+	for i, k := range []string{"keymismatch", "keymismatch", "rs0", "rsneg", "rs16385", "emptydigest", "seconddigest"} {
 		cs = append(cs, Case{"cli_sign_refuse", []Sx{Sym(k), Zi(int64(i))}})
 	}
 	// Bundle.Validate through gen-bundle (no -ignoreErrors): the primary URL must have an exchange
@@ -670,6 +728,9 @@ func genC20(r *Rng, tier string) []Case {
 		all[i] = byte(i)
 	}
 	cs = append(cs, Case{"escape_path", []Sx{B(all)}})
+	for _, p := range []string{"*", "**", "a*", "*a", "/*", "*/"} {
+		cs = append(cs, Case{"escape_path", []Sx{B([]byte(p))}})
+	}
 	// cert chain and signed exchange tool chains
 	m := 8
 	if tier == "thorough" {
